@@ -227,16 +227,17 @@ impl RoutePattern {
             if let Some(part) = part {
                 let part_decoded = percent_decode_str(part);
                 if let Some(segment) = segment {
-                    let segment_decoded = percent_decode_str(segment.segment_str(pattern.as_str()));
+                    let segment_str = segment.segment_str(pattern.as_str());
                     if segment.parameter {
                         let collected = part_decoded.decode_utf8_lossy().to_string();
                         if collected.is_empty() {
                             return None;
                         } else {
-                            param_map
-                                .insert(segment_decoded.decode_utf8_lossy().to_string(), collected);
+                            // The name is used exactly as it is written in the pattern (as it
+                            // is by `parameters` and `apply`).
+                            param_map.insert(segment_str.to_string(), collected);
                         }
-                    } else if !part_decoded.eq(segment_decoded) {
+                    } else if !part_decoded.eq(percent_decode_str(segment_str)) {
                         return None;
                     }
                 } else {
